@@ -264,10 +264,13 @@ impl Axecutor {
 
     fn collect_mem_error_hints(&self, address: u64, length: u64, operation: String) -> AxError {
         // check if start or end address is within any of the memory areas
+        // (the end is computed with saturation: an access that runs past the top of the address space, e.g. an
+        // instruction fetch with RIP in the last bytes, must produce this error and not an arithmetic overflow)
+        let end = address.saturating_add(length);
         for area in &self.state.memory {
             if address >= area.start
                 && address < area.start + area.length
-                && address + length > area.start + area.length
+                && end > area.start + area.length
             {
                 return AxError::from(format!(
                     "Memory {} of length {} at address {:#x} over end of memory area {} (start {:#x}, length {})",
@@ -285,7 +288,7 @@ impl Axecutor {
         }
 
         for area in &self.state.memory {
-            if address + length > area.start && address + length <= area.start + area.length {
+            if end > area.start && end <= area.start + area.length {
                 return AxError::from(format!(
                     "Memory {} of length {} at address {:#x} before start of memory area {} (start {:#x}, length {})",
                     operation.to_lowercase(),
